@@ -247,6 +247,9 @@ def chain_case(draw, tier):
 SUBCHECKS = [
     SubCheck("programs", body_program, program_case, quick=9000, thorough=800000, shards_quick=8,
              doc="random straight-line programs (depth 1-8), lazy world vs freshly-rebuilt world"),
+    SubCheck("programs-coverage-guided", body_program, program_case, kind="atheris", quick=0, thorough=1200000, shards_thorough=16,
+             doc="thorough only: atheris/libFuzzer drives the same program strategy through Hypothesis' fuzz_one_input, coverage of "
+                 "npstructures as feedback (16 campaigns, fresh corpus each, removed afterwards); evaluations = programs actually executed"),
     SubCheck("twin", body_program, twin_case, quick=9000, thorough=600000, shards_quick=4,
              doc="1-2 compounding selections, then one operation of the full vocabulary on the pending view vs its fresh twin"),
     SubCheck("view-chain-model", body_chain, chain_case, quick=9000, thorough=600000, shards_quick=4,
